@@ -127,8 +127,9 @@ def _contexts(rlines):
     prev = None
     stmt = None
     seen_feature = False
+    in_rule = False
     for i in range(len(rlines) + 1):
-        ctx.append({"in_doc": in_doc, "prev": prev, "stmt": stmt, "seen_feature": seen_feature})
+        ctx.append({"in_doc": in_doc, "prev": prev, "stmt": stmt, "seen_feature": seen_feature, "in_rule": in_rule})
         if i == len(rlines):
             break
         k = rlines[i].kind
@@ -142,11 +143,13 @@ def _contexts(rlines):
             stmt = k if k != "examples" else stmt
             if k == "feature":
                 seen_feature = True
+            if k == "rule":
+                in_rule = True
         prev = k
     return ctx
 
 
-def _is_fault(kind, c, has_bg):
+def _is_fault(kind, c, has_bg, feature_bg=True):
     if kind == "underindented-docstring-line":
         return c["in_doc"]
     if c["in_doc"]:
@@ -157,6 +160,10 @@ def _is_fault(kind, c, has_bg):
     if kind == "examples-outside-outline":
         return c["seen_feature"] and stmt != "scenario_outline" and prev != "tags"
     if kind == "and-without-predecessor":
+        # first step of a Background: nothing to inherit a step type from unless it is a rule's background below a
+        # feature background (whose steps it inherits) - whatever the scenarios before it ended with
+        if prev == "background" and (not c["in_rule"] or not feature_bg):
+            return True
         return (not has_bg) and prev in ("scenario", "scenario_outline")
     if kind == "ragged-table-row":
         return prev == "table-row"
@@ -184,7 +191,8 @@ def h_inject(sx):
         if pos == i:
             idx = i
             break
-    if not _is_fault(kind, ctx[idx], tree.get("bg") is not None or any(it.get("bg") for it in tree["items"] if it["k"] == "r")):
+    if not _is_fault(kind, ctx[idx], tree.get("bg") is not None or any(it.get("bg") for it in tree["items"] if it["k"] == "r"),
+                     feature_bg=tree.get("bg") is not None):
         return ["n/a", idx]
     inj = sx.choice("inj", FAULTS[kind])
     lines = base[:idx] + [inj] + base[idx:]
@@ -250,8 +258,10 @@ def jobs(tier, seed):       # noqa: F811
         js.append(Job("reuse.%s" % t, "props.c05:h_reuse", {"tree": t, "k": 2},
                       reach=["C05.injected-fault-is-reported", "C05.error-at-injected-line"], min_paths=3, cost=50, validate=30, closure=False))
     trees = ["basic", "outline", "bg-rule", "mixed", "o-rule"]
-    for t in trees:
+    for t in trees + ["o-o"]:
         for f in FAULTS:
+            if t == "o-o" and f != "and-without-predecessor":
+                continue        # (a rule's background after scenarios with steps, no feature background)
             if f == "ragged-table-row" and t not in ("outline", "mixed", "o-rule"):
                 continue
             if f == "underindented-docstring-line" and t != "outline":
